@@ -7,7 +7,7 @@
 // whose key material the harness knows (raw.go), and over loopback TCP.
 //
 //	M1 stream integrity   m1.go   (race stage)
-//	M2 nonces             m1.go   (race stage)
+//	M2 nonces             m1.go, m2f.go (transport write faults)   (race stage)
 //	M3 ciphertext tamper  m3.go
 //	M4 handshake MITM     m4.go
 //	M5 transport identity m5.go
@@ -192,6 +192,8 @@ const (
 	stageOutEnv = "VERIF_C16_STAGE_OUT"
 )
 
+func nFault(c *verdict.Ctx) int { return c.N(400, 40000) }
+
 func sizes(c *verdict.Ctx) (nM1, nRawW, nRawR, nM3, nM4, nM5 int) {
 	return c.N(1200, 120000), c.N(400, 40000), c.N(400, 40000), c.N(1400, 140000), c.N(500, 50000), c.N(100, 10000)
 }
@@ -231,7 +233,7 @@ func Run(c *verdict.Ctx) int {
 		wait()
 	}
 
-	min := c.N(2500, 200000)
+	min := c.N(2800, 220000)
 	return c.Finish(min)
 }
 
@@ -254,11 +256,20 @@ func runM12(c *verdict.Ctx, s sink, inRace bool) {
 		runM1(c, s, 0, r1)
 		runM2Raw(c, s, "m2rawW", 0, rW)
 		runM2Raw(c, s, "m2rawR", 0, rR)
+		runM2Fault(c, s, 0, rFault(c))
 		return
 	}
 	runM1(c, s, r1, n1)
 	runM2Raw(c, s, "m2rawW", rW, nW)
 	runM2Raw(c, s, "m2rawR", rR, nR)
+	runM2Fault(c, s, rFault(c), nFault(c))
+}
+
+func rFault(c *verdict.Ctx) int {
+	if !c.Thorough() {
+		return nFault(c)
+	}
+	return 3000
 }
 
 func runM12All(c *verdict.Ctx, s sink) {
@@ -266,6 +277,7 @@ func runM12All(c *verdict.Ctx, s sink) {
 	runM1(c, s, 0, n1)
 	runM2Raw(c, s, "m2rawW", 0, nW)
 	runM2Raw(c, s, "m2rawR", 0, nR)
+	runM2Fault(c, s, 0, nFault(c))
 }
 
 func runRaceChild(c *verdict.Ctx) int {
@@ -381,6 +393,8 @@ func runReplay(c *verdict.Ctx, path string) int {
 		m1Case(c, c, h.Case)
 	case "m2raw":
 		m2RawCase(c, c, h.Stream, h.Case)
+	case "m2fault":
+		m2FaultCase(c, c, h.Case)
 	case "m3":
 		m3Case(c, c, h.Case)
 	case "m4":
